@@ -39,14 +39,14 @@ func (r *balanceReporterCollapsed) Flush() error {
 	return r.output.Flush()
 }
 
-func getJump(node *shared.TreeNode) []string {
-	if len(node.Children) == 0 {
-		return []string{node.Name}
+// getJump follows a chain of sole children and returns the joined names and the node the chain ends in
+func getJump(node *shared.TreeNode) ([]string, *shared.TreeNode) {
+	jump := []string{node.Name}
+	for len(node.Children) == 1 {
+		node = node.FirstChild()
+		jump = append(jump, node.Name)
 	}
-	if len(node.Children) == 1 {
-		return append([]string{node.Name}, getJump(node.FirstChild())...)
-	}
-	return []string{}
+	return jump, node
 }
 
 func printNodeCollapsed(node *shared.TreeNode, level int, output io.Writer) error {
@@ -54,17 +54,12 @@ func printNodeCollapsed(node *shared.TreeNode, level int, output io.Writer) erro
 	for _, key := range node.Keys() {
 		child := node.Children[key]
 
-		jump := getJump(child)
-		if len(jump) > 0 {
-			if _, err = fmt.Fprintf(output, "%10.2f | %s%s\n", child.Total, strings.Repeat("  ", level), strings.Join(jump, "/")); err != nil {
-				return err
-			}
-			continue
-		}
-		if _, err = fmt.Fprintf(output, "%10.2f | %s%s\n", child.Total, strings.Repeat("  ", level), child.Name); err != nil {
+		jump, last := getJump(child)
+		if _, err = fmt.Fprintf(output, "%10.2f | %s%s\n", child.Total, strings.Repeat("  ", level), strings.Join(jump, "/")); err != nil {
 			return err
 		}
-		if err = printNodeCollapsed(child, level+1, output); err != nil {
+		// the chain ends in a leaf or in a fork whose branches are printed below it
+		if err = printNodeCollapsed(last, level+1, output); err != nil {
 			return err
 		}
 	}
